@@ -1,1 +1,6 @@
-//! shared helpers for the checks in this crate
+//! shared helpers for the state-res / authorization checks (C06 C07 C08 C09 C20)
+pub mod cases;
+pub mod pdu;
+pub mod spec_auth;
+pub mod tpi;
+pub mod world;
